@@ -197,16 +197,18 @@ Record sstate := mkS {
   wal : list N;
   acked : list N;               (* ghost *)
   pph : N -> pphase;
-  rph : N -> rphase
+  rph : N -> rphase;
+  closedseg : list N            (* entries of the closed WAL segments the running snapshot will remove *)
 }.
 
-Definition sinit : sstate := mkS [] None None false [] [] [] (fun _ => PInit) (fun _ => RInit).
+Definition sinit : sstate := mkS [] None None false [] [] [] (fun _ => PInit) (fun _ => RInit) [].
 
 Inductive sact :=
 | SCacheW (p : N)      (* Cache.WriteMulti *)
 | SWalW (p : N)        (* WAL.WriteMulti *)
 | SAck (p : N)         (* WritePoints returns nil *)
-| SSnapBegin           (* Cache.Snapshot (under Engine.mu) *)
+| SSnapBegin           (* under Engine.mu.Lock: WAL.CloseSegment, list the closed segments, Cache.Snapshot *)
+| SSnapCloseSeg        (* only in the two-section variant: WAL.CloseSegment in a later critical section *)
 | SSnapInstall         (* FileStore.Replace(nil, newFiles) under FileStore.mu *)
 | SSnapClear           (* Cache.ClearSnapshot(true) *)
 | SCompact             (* FileStore.Replace(old, merged): atomic swap of the file list *)
@@ -219,37 +221,49 @@ Definition cache_view (s : sstate) : list N :=
 Definition visible (s : sstate) : list N := cache_view s ++ concat (files s).
 
 (* [install_first] = FileStore.Replace happens before Cache.ClearSnapshot (the code);
-   [false] models the reversed order, kept for the refutation lemma. *)
-Definition sexec_with (install_first : bool) (a : sact) (s : sstate) : sstate :=
+   [false] models the reversed order, kept for the refutation lemma.
+   [one_section] = WriteSnapshot closes the WAL segment and takes the cache snapshot in ONE
+   Engine.mu.Lock section (the code); [false] is the variant that takes the cache snapshot
+   first and closes the segment in a later section. *)
+Definition sexec_with2 (one_section install_first : bool) (a : sact) (s : sstate) : sstate :=
   match a with
   | SCacheW p =>
       match pph s p with
-      | PInit => mkS (p :: hot s) (snap s) (flushing s) (installed s) (files s) (wal s) (acked s) (upd (pph s) p PCached) (rph s)
+      | PInit => mkS (p :: hot s) (snap s) (flushing s) (installed s) (files s) (wal s) (acked s) (upd (pph s) p PCached) (rph s) (closedseg s)
       | _ => s
       end
   | SWalW p =>
       match pph s p with
-      | PCached => mkS (hot s) (snap s) (flushing s) (installed s) (files s) (p :: wal s) (acked s) (upd (pph s) p PLogged) (rph s)
+      | PCached => mkS (hot s) (snap s) (flushing s) (installed s) (files s) (p :: wal s) (acked s) (upd (pph s) p PLogged) (rph s) (closedseg s)
       | _ => s
       end
   | SAck p =>
       match pph s p with
-      | PLogged => mkS (hot s) (snap s) (flushing s) (installed s) (files s) (wal s) (p :: acked s) (upd (pph s) p PAcked) (rph s)
+      | PLogged => mkS (hot s) (snap s) (flushing s) (installed s) (files s) (wal s) (p :: acked s) (upd (pph s) p PAcked) (rph s) (closedseg s)
       | _ => s
       end
   | SSnapBegin =>
       match snap s with
-      | None => mkS [] (Some (hot s)) (Some (hot s)) false (files s) (wal s) (acked s) (pph s) (rph s)
+      | None => if one_section
+                then mkS [] (Some (hot s)) (Some (hot s)) false (files s) [] (acked s) (pph s) (rph s) (closedseg s ++ wal s)
+                else mkS [] (Some (hot s)) (Some (hot s)) false (files s) (wal s) (acked s) (pph s) (rph s) (closedseg s)
       | Some _ => s                                   (* ErrSnapshotInProgress *)
       end
+  | SSnapCloseSeg =>
+      if one_section then s
+      else match flushing s with
+           | Some _ => if installed s then s
+                       else mkS (hot s) (snap s) (flushing s) (installed s) (files s) [] (acked s) (pph s) (rph s) (closedseg s ++ wal s)
+           | None => s
+           end
   | SSnapInstall =>
       match flushing s with
       | Some l =>
           if install_first
           then if installed s then s
-               else mkS (hot s) (snap s) (flushing s) true (files s ++ [l]) (wal s) (acked s) (pph s) (rph s)
+               else mkS (hot s) (snap s) (flushing s) true (files s ++ [l]) (wal s) (acked s) (pph s) (rph s) (closedseg s)
           else if installed s
-               then mkS (hot s) (snap s) None false (files s ++ [l]) (wal s) (acked s) (pph s) (rph s)
+               then mkS (hot s) (snap s) None false (files s ++ [l]) (wal s) (acked s) (pph s) (rph s) []
                else s
       | None => s
       end
@@ -258,32 +272,33 @@ Definition sexec_with (install_first : bool) (a : sact) (s : sstate) : sstate :=
       | Some l =>
           if install_first
           then if installed s
-               then mkS (hot s) None None false (files s) (wal s) (acked s) (pph s) (rph s)
+               then mkS (hot s) None None false (files s) (wal s) (acked s) (pph s) (rph s) []   (* WAL.Remove(closedFiles) *)
                else s
           else if installed s then s
-               else mkS (hot s) None (flushing s) true (files s) (wal s) (acked s) (pph s) (rph s)
+               else mkS (hot s) None (flushing s) true (files s) (wal s) (acked s) (pph s) (rph s) (closedseg s)
       | None => s
       end
-  | SCompact => mkS (hot s) (snap s) (flushing s) (installed s) [concat (files s)] (wal s) (acked s) (pph s) (rph s)
+  | SCompact => mkS (hot s) (snap s) (flushing s) (installed s) [concat (files s)] (wal s) (acked s) (pph s) (rph s) (closedseg s)
   | SRBegin r =>
       match rph s r with
-      | RInit => mkS (hot s) (snap s) (flushing s) (installed s) (files s) (wal s) (acked s) (pph s) (upd (rph s) r (RBegun (acked s)))
+      | RInit => mkS (hot s) (snap s) (flushing s) (installed s) (files s) (wal s) (acked s) (pph s) (upd (rph s) r (RBegun (acked s))) (closedseg s)
       | _ => s
       end
   | SRCache r =>
       match rph s r with
       | RBegun must => mkS (hot s) (snap s) (flushing s) (installed s) (files s) (wal s) (acked s) (pph s)
-                           (upd (rph s) r (RCache must (cache_view s)))
+                           (upd (rph s) r (RCache must (cache_view s))) (closedseg s)
       | _ => s
       end
   | SRFiles r =>
       match rph s r with
       | RCache must cv => mkS (hot s) (snap s) (flushing s) (installed s) (files s) (wal s) (acked s) (pph s)
-                              (upd (rph s) r (RDone must (cv ++ concat (files s))))
+                              (upd (rph s) r (RDone must (cv ++ concat (files s)))) (closedseg s)
       | _ => s
       end
   end.
 
+Definition sexec_with := sexec_with2 true.
 Definition sexec := sexec_with true.
 
 Definition subset (a b : list N) : bool := forallb (fun x => mem x b) a.
